@@ -360,6 +360,11 @@ func RunC20(c *Ctx) {
 		{"small-nested-arrays", []byte(`[[1],[2],[],[[]]]`)},
 		{"failing-object", []byte(`{"a":{"b":1},"c":{"d":`)},
 		{"failing-array", []byte(`[[1,2],[3,`)},
+		// the FIRST nested container fails, so that no successful sibling refreshes a hint before the
+		// error (seeded change C20r9-m2: the child's size recorded only on success)
+		{"failing-inside-the-first-nested-object", []byte(`{"data":{"id":1`)},
+		{"failing-inside-the-first-nested-array", []byte(`{"data":[1,`)},
+		{"failing-first-element-object", []byte(`[{"id":`)},
 		{"null", []byte(`null`)},
 		{"wrong-kind", []byte(`"just a string"`)},
 		{"small-escaped", []byte(`{"\n":"\t","k":["\""]}`)},
